@@ -460,6 +460,21 @@ fn run_indicator_stream(c: &IStreamCase, st: &mut Stats) -> CaseResult {
 	Ok(())
 }
 
+/// the same oracle on long one-sided trends (counters of peaks, runs and "bars since" keep counting)
+fn run_indicator_trend(c: &IStreamCase, st: &mut Stats) -> CaseResult {
+	let mut inner = Stats::default();
+	run_indicator_stream(c, &mut inner)?;
+	st.count("trend_steps", c.s.cs.len() as u64);
+	if c.s.cs.len() >= 600 {
+		st.nontrivial(engine::fnv(format!("{:?}{}{:?}", c.cfg, c.s.cs.len(), &c.s.cs[..8]).as_bytes()));
+		st.class("trend>=600 bars");
+	} else {
+		st.class("trend<600 bars");
+	}
+	st.sample(&format!("trend/{}", c.cfg.name), || json!({"indicator": c.cfg.name, "config": c.cfg.cfg, "stream_len": c.s.cs.len(), "first": c.s.cs[0], "last": c.s.cs[c.s.cs.len() - 1]}));
+	Ok(())
+}
+
 // ---------------------------------------------------------------------------------------
 // strings
 
@@ -513,12 +528,16 @@ pub fn def(tier: Tier) -> PropertyDef {
 		let strat = (cfggen::config_strategy(name, cfggen::GenOpts { wide: true, price_sources: false, nonneg_ma: false }), crate::gen::candle_stream(1, tier.pick(300, 900))).prop_map(|(cfg, s)| IStreamCase { cfg, s });
 		checks.push(pt(&format!("stream_{name}"), tier.pick(600, 3000), strat, run_indicator_stream));
 	}
+	for name in cfggen::NAMES {
+		let strat = (cfggen::config_strategy(name, cfggen::GenOpts { wide: false, price_sources: false, nonneg_ma: false }), crate::gen::trend_candle_stream(tier.pick(3000, 30000))).prop_map(|(cfg, s)| IStreamCase { cfg, s });
+		checks.push(pt(&format!("trend_{name}"), tier.pick(240, 800), strat, run_indicator_trend));
+	}
 	checks.push(pt("strings", tier.pick(80000, 400000), string_strategy(), run_string));
 	let _ = fail_unused;
 	PropertyDef {
 		id: "C10",
 		level: "exploration",
-		rule: "Exhaustive: every value 0..=255 of PeriodType for each of the 32 single-length constructors and the 15 MA kinds (through MA::init), special construction values (NaN, +-inf, ...), Conv weight vectors of length {0,1,2,3,253..256,300} with special fills, Renko brick sizes from the float boundary set x 8 sources, CollapseTimeframe periods {0,1,2,3,255,256,MAX-1,MAX}; all 65 536 pairs for TSI and the three reversal detectors in the thorough tier (quick: 25x25 boundary grid + 500 seeded pairs); every field of every indicator configuration through all 256 period values / the float boundary set (non-finite through set()) / both booleans / all sources / 15 MA kinds x boundary lengths, with the other fields at their defaults and at generated valid values; proptest: generated valid configurations (wide ranges, all sources) on generated valid candle streams, and strings against Source/MA parsing and set(). All under catch_unwind with debug-assertions and overflow-checks on. Oracle: no panic; documented-too-small => Err; !validate() => init is Err; every accepted instance survives a valid stream with flat, high==low and zero-volume stretches. Non-trivial = each enumerated parameter tuple that was decided (rejected as required, or accepted and survived), generated streams with a flat stretch, distinct strings.",
+		rule: "Exhaustive: every value 0..=255 of PeriodType for each of the 32 single-length constructors and the 15 MA kinds (through MA::init), special construction values (NaN, +-inf, ...), Conv weight vectors of length {0,1,2,3,253..256,300} with special fills, Renko brick sizes from the float boundary set x 8 sources, CollapseTimeframe periods {0,1,2,3,255,256,MAX-1,MAX}; all 65 536 pairs for TSI and the three reversal detectors in the thorough tier (quick: 25x25 boundary grid + 500 seeded pairs); every field of every indicator configuration through all 256 period values / the float boundary set (non-finite through set()) / both booleans / all sources / 15 MA kinds x boundary lengths, with the other fields at their defaults and at generated valid values; proptest: generated valid configurations (wide ranges, all sources) on generated valid candle streams and on long one-sided trend streams with a zig-zag (up to 3000 bars quick / 30000 thorough), and strings against Source/MA parsing and set(). All under catch_unwind with debug-assertions and overflow-checks on. Oracle: no panic; documented-too-small => Err; !validate() => init is Err; every accepted instance survives a valid stream with flat, high==low and zero-volume stretches. Non-trivial = each enumerated parameter tuple that was decided (rejected as required, or accepted and survived), generated streams with a flat stretch, trend streams of at least 600 bars, distinct strings.",
 		assumptions: vec![
 			"harness build profile: opt-level 3 with debug-assertions and overflow-checks ON (the repository's own tests run with them on)".into(),
 			"configurations not representable in the field types (e.g. 256 for u8) are outside the quantifier".into(),
